@@ -44,6 +44,44 @@ void report_fault(RunResult &rr, Hist &h, const FaultInfo &fi, const char *where
         rr.fail(o, strf("%s: %s", where, fault_str(fi).c_str()));
 }
 
+// Custom Huffman tables from a histogram the library itself collects: over a generated sample, or ("subset": codes only for the
+// literals that occur) over the very data that will be compressed.  Returns the tables' slot, nullptr if the library declined.
+Slot *make_custom_hufftables(const Json &hf, const std::vector<uint8_t> &data, uint64_t fill, GuardCtx &gc, RunResult &rr, Hist &h, bool &faulted)
+{
+        Json ds = Json::obj();
+        ds.set("k", hf.geti("k")).set("n", 1 + (uint64_t) hf.geti("n") % 20000).set("s", hf.geti("s")).set("p", 7);
+        std::vector<uint8_t> sample = make_data(ds);
+        bool subset = hf.geti("subset") != 0 && !data.empty();
+        if (subset)
+                sample = data;
+        Slot *s_hist = g_arena.alloc(sizeof(struct isal_huff_histogram), PLACE_END, "histogram", 2, 8);
+        Slot *s_samp = g_arena.alloc(sample.size(), PLACE_END, "hist_sample", 0, 1);
+        Slot *s_huff = g_arena.alloc(sizeof(struct isal_hufftables), PLACE_END, "hufftables", fill + 3, 8);
+        if (!s_hist || !s_samp || !s_huff) {
+                faulted = true;
+                return nullptr;
+        }
+        memcpy(s_samp->data, sample.data(), sample.size());
+        memset(s_hist->data, 0, s_hist->len);
+        int cr = 0;
+        if (GUARDED(gc, {
+                    isal_update_histogram(s_samp->data, (int) sample.size(), (struct isal_huff_histogram *) s_hist->data);
+                    cr = subset ? isal_create_hufftables_subset((struct isal_hufftables *) s_huff->data, (struct isal_huff_histogram *) s_hist->data)
+                                : isal_create_hufftables((struct isal_hufftables *) s_huff->data, (struct isal_huff_histogram *) s_hist->data);
+            })) {
+                report_fault(rr, h, gc.fi, "isal_create_hufftables");
+                faulted = true;
+                return nullptr;
+        }
+        g_arena.release(s_samp);
+        g_arena.release(s_hist);
+        h.rec("mkhuff", { cr, (int64_t) hash_bytes(s_huff->data, s_huff->len) });
+        if (cr != 0)
+                return nullptr;
+        COUNT(subset ? "cfg.huff_custom_subset" : "cfg.huff_custom");
+        return s_huff;
+}
+
 namespace
 {
 struct DeflateSession {
@@ -126,31 +164,13 @@ struct DeflateSession {
                 const Json &hf = plan.at("huff");
                 int ht = (int) ((uint64_t) hf.geti("t") % 3);
                 if (ht == IGZIP_HUFFTABLE_CUSTOM) {
-                        Json ds = Json::obj();
-                        ds.set("k", hf.geti("k")).set("n", 1 + (uint64_t) hf.geti("n") % 20000).set("s", hf.geti("s")).set("p", 7);
-                        std::vector<uint8_t> sample = make_data(ds);
-                        Slot *s_hist = g_arena.alloc(sizeof(struct isal_huff_histogram), PLACE_END, "histogram", 2, 8);
-                        Slot *s_samp = g_arena.alloc(sample.size(), PLACE_END, "hist_sample", 0, 1);
-                        s_huff = g_arena.alloc(sizeof(struct isal_hufftables), PLACE_END, "hufftables", fill + 3, 8);
-                        if (!s_hist || !s_samp || !s_huff)
+                        bool faulted = false;
+                        s_huff = make_custom_hufftables(hf, data, fill, gc, rr, h, faulted);
+                        if (faulted)
                                 return false;
-                        memcpy(s_samp->data, sample.data(), sample.size());
-                        memset(s_hist->data, 0, s_hist->len);
-                        int cr = 0;
-                        if (GUARDED(gc, {
-                                    isal_update_histogram(s_samp->data, (int) sample.size(), (struct isal_huff_histogram *) s_hist->data);
-                                    cr = isal_create_hufftables((struct isal_hufftables *) s_huff->data, (struct isal_huff_histogram *) s_hist->data);
-                            })) {
-                                report_fault(rr, h, gc.fi, "isal_create_hufftables");
-                                return false;
-                        }
-                        g_arena.release(s_samp);
-                        g_arena.release(s_hist);
-                        h.rec("mkhuff", { cr, (int64_t) hash_bytes(s_huff->data, s_huff->len) });
-                        if (cr == 0) {
+                        if (s_huff) {
                                 int sr = isal_deflate_set_hufftables(st, (struct isal_hufftables *) s_huff->data, IGZIP_HUFFTABLE_CUSTOM);
                                 h.rec("sethuff", { sr, ht });
-                                COUNT("cfg.huff_custom");
                         }
                 } else {
                         int sr = isal_deflate_set_hufftables(st, nullptr, ht);
@@ -737,7 +757,7 @@ static Json gen_deflate(Rng &r0, const std::string &focus, int tier)
         p.set("lb", lb);
         Json hf = Json::obj();
         int ht = r.chance(1, 2) ? IGZIP_HUFFTABLE_DEFAULT : (int) r.below(3);
-        hf.set("t", ht).set("k", (int) r.below(DK_NKINDS)).set("n", (int) r.below(20000)).set("s", r.u64() >> 20);
+        hf.set("t", ht).set("k", (int) r.below(DK_NKINDS)).set("n", (int) r.below(20000)).set("s", r.u64() >> 20).set("subset", (int) r.chance(1, 4));
         p.set("huff", hf);
         Json dj = Json::obj();
         int dmode = (focus == "C17" ? r.chance(1, 2) : r.chance(1, 8)) ? 1 + (int) r.below(2) : 0;
